@@ -135,7 +135,7 @@ func ruleExcludeCallers(c *eng.Ctx) {
 	inTraversal := map[*ssa.Function]bool{trav: true}
 	for _, h := range eng.Cluster(trav, 2) {
 		// a helper extracted from the traversal calls back into it
-		if len(eng.Calls(h, false, func(_ string, ci ssa.CallInstruction) bool { return ci.Common().StaticCallee() == trav })) > 0 {
+		if len(eng.Calls(h, false, func(_ string, ci ssa.CallInstruction) bool { return eng.StaticCallee(ci) == trav })) > 0 {
 			inTraversal[h] = true
 		}
 	}
@@ -145,7 +145,7 @@ func ruleExcludeCallers(c *eng.Ctx) {
 		if fn == target || fn.Pkg == nil || eng.ShortPath(fn.Pkg.Pkg.Path()) != "htmldoc" {
 			continue
 		}
-		for _, ci := range eng.Calls(fn, true, func(_ string, ci ssa.CallInstruction) bool { return ci.Common().StaticCallee() == target }) {
+		for _, ci := range eng.Calls(fn, true, func(_ string, ci ssa.CallInstruction) bool { return eng.StaticCallee(ci) == target }) {
 			n++
 			if !inTraversal[fn] {
 				bad = append(bad, eng.FuncName(fn)+" at "+c.P.Pos(ci.Pos()))
@@ -322,7 +322,7 @@ func freshStorage(fn *ssa.Function, v ssa.Value, at ssa.Instruction, depth int) 
 					continue
 				}
 				for _, ci := range eng.Calls(g, true, func(string, ssa.CallInstruction) bool { return true }) {
-					if ci.Common().StaticCallee() != fn || idx < 0 || idx >= len(ci.Common().Args) {
+					if eng.StaticCallee(ci) != fn || idx < 0 || idx >= len(ci.Common().Args) {
 						continue
 					}
 					sites++
